@@ -235,7 +235,7 @@ PROPS = {
             dict(h='wav', mode='fuzz', what='libFuzzer (coverage-guided) over raw and structured bytes, same oracle', params=dict(oracle=14),
                  quick=dict(runs=600000, max_len=300, len=220), thorough=dict(runs=40000000, max_len=300, len=220, timeout=3000)),
         ],
-        require={'unknown-extension-of-65535-bytes-or-more': 100, 'length>=44-and-magic-present': 1000, 'accepted': 1000, 'structured-truncated': 1000, 'raw-bytes': 1000},
+        require={'widest-printable-fields': 1000, 'unknown-extension-of-65535-bytes-or-more': 100, 'length>=44-and-magic-present': 1000, 'accepted': 1000, 'structured-truncated': 1000, 'raw-bytes': 1000},
         assumptions=['declared lengths stay far below 2^31 (return type int)'],
     ),
     'C15': dict(
@@ -363,7 +363,7 @@ PROPS = {
             for (sc, hs, ea, ed) in [(0, (3, 1), 1, 1), (0, (4, 3, 2), 0, 2), (1, (3, 0), 1, 1), (1, (5, 3, 1), 0, 1), (2, (2, 3), 1, 2), (2, (1, 2, 0), 0, 1), (3, (3, 3), 1, 1), (3, (4, 4, 1), 0, 2)]
         ] + [
             dict(h='fibconc', mode='rc', what='random scripts and interrupt placements (ISR)', params=dict(oracle=3, mode=1),
-                 quick=dict(cases=60000, len=500), thorough=dict(cases=12000000, len=500)),
+                 quick=dict(cases=200000, len=500), thorough=dict(cases=12000000, len=500)),
         ],
         require={'returns-with-undrained-atomic-request': 1000, 'returns-with-only-timers-pending': 1000, 'returns-after-a-yield': 1000,
                  'request-completed-inside-fibre_scheduler_next': 1000},
